@@ -1338,6 +1338,25 @@ mkassignexpr(struct expr *l, struct expr *r)
 	return e;
 }
 
+/* 6.3.2.1p1: a structure or union with a const-qualified member (recursively) is not a modifiable lvalue */
+static bool
+hasconstmember(struct type *t)
+{
+	struct member *m;
+
+	for (; t->kind == TYPEARRAY; t = t->base) {
+		if (t->qual & QUALCONST)
+			return true;
+	}
+	if (t->kind != TYPESTRUCT && t->kind != TYPEUNION)
+		return false;
+	for (m = t->u.structunion.members; m; m = m->next) {
+		if (m->qual & QUALCONST || hasconstmember(m->type))
+			return true;
+	}
+	return false;
+}
+
 struct expr *
 assignexpr(struct scope *s)
 {
@@ -1366,6 +1385,8 @@ assignexpr(struct scope *s)
 		error(&tok.loc, "left side of assignment expression is not an lvalue");
 	if (l->type->incomplete)
 		error(&tok.loc, "left side of assignment expression has incomplete type");
+	if (hasconstmember(l->type))
+		error(&tok.loc, "left side of assignment expression has a const-qualified member");
 	next();
 	r = assignexpr(s);
 	if (!op)
